@@ -52,6 +52,7 @@ ALL = [
     ('P12-nested-table-lineage', ['C05', 'C19'], lambda: docx(p(r('«1»before')) + tbl(tr(tc(p(r('«2»A1')), tbl(tr(tc(p(r('«3»inner'))))), p(r('«4»A1-after'))), tc(p(r('«5»B1')))), tr(tc(p(r('«6»A2'))), tc(p(r('«7»B2'))))) + p(r('«8»after')))),
     ('P12b-sdt-in-cell-lineage', ['C05'], lambda: docx(tbl(tr(tc(p(r('«1»a')), '<w:sdt><w:sdtContent>' + p(r('«2»in sdt')) + '</w:sdtContent></w:sdt>', p(r('«3»b'))), tc(p(r('«4»c'))))))),
     ('P13-start-0', ['C08'], lambda: docx(LISTP('«1»x') + LISTP('«2»y') + LISTP('«3»z', 1), numbering=NUM0)),
+    ('P36-dangling-abstractNum-beside-a-defined-list', ['C08', 'C13'], lambda: docx(LISTP('«1»x') + LISTP('«2»y') + LISTP('«3»z', 1), numbering=NUM0 + '<w:num w:numId="3"><w:abstractNumId w:val="7"/></w:num>')),
     ('P15-links-different-anchors', ['C10', 'C06'], lambda: docx(p(link('r:id="rId9" w:anchor="a"', r('«1»x')), link('r:id="rId9" w:anchor="b"', r('«2»y'))), docrels=LINK)),
     ('P16-word-word', ['C09'], lambda: docx(p(r('body')), docrels=[('rId2', 'header', 'word/h.xml')], extra={'word/word/h.xml': f'<w:hdr {NS}>' + p(r('head-in-word-word')) + '</w:hdr>'})),
     ('P18-range-end-without-start', ['C13', 'C12'], lambda: docx(p(r('a'), '<w:commentRangeEnd w:id="5"/>', r('b', '<w:b/>')))),
